@@ -74,6 +74,11 @@ func c03sExec(t *testing.T, variant string, prefix []int, expect []string, trace
 				if variant == "resolve-then-fire" {
 					prov.Put(ctx, mk("S1", 0))
 					prov.Put(ctx, mk("S2", 10*time.Minute))
+				} else if variant == "resolve-then-refire-same" {
+					// the SAME source resolves and fires again while the cache GC runs: the GC may only remove what is
+					// resolved at the moment it removes it
+					prov.Put(ctx, mk("S1", 0))
+					prov.Put(ctx, mk("S1", 10*time.Minute))
 				} else {
 					prov.Put(ctx, mk("S2", 20*time.Minute))
 					prov.Put(ctx, mk("S1", 0))
@@ -146,7 +151,7 @@ func TestVerifC03Sched(t *testing.T) {
 		bound = 3
 	}
 	deadline := rep.Deadline(10 * time.Minute)
-	for _, variant := range []string{"resolve-then-fire", "fire-then-resolve"} {
+	for vi, variant := range []string{"resolve-then-fire", "fire-then-resolve", "resolve-then-refire-same"} {
 		part := "sched-" + variant
 		if rp := rep.ReplaySpec(); rp != nil {
 			if rp["part"] != part {
@@ -164,7 +169,7 @@ func TestVerifC03Sched(t *testing.T) {
 			return
 		}
 		R := rep.New("C03", part)
-		e := &sched.Explorer{Bound: bound, Shard: shard, NShards: nsh, ShardDepth: 2, Deadline: deadline}
+		e := &sched.Explorer{Bound: bound, Shard: shard, NShards: nsh, ShardDepth: 2, Deadline: rep.Share(deadline, vi, 3)}
 		e.Run = func(prefix []int, expect []string) *sched.Exec {
 			x, _ := c03sExec(t, variant, prefix, expect, false)
 			return x
